@@ -1051,6 +1051,40 @@ class MiscGenerator:
             return self.claim_op(root)
         return None
 
+    def give_comment_op(self, root):
+        """A deep copy of a comment of the document (of an unowned one where there is one: its flag says 'not claimed') is given to
+        a list or to a model as its leading / trailing comment."""
+        r = self.r
+        from autobean_refactor.models.internal.surrounding_comments import SurroundingCommentsMixin
+        cs = [t for t in root.token_store if isinstance(t, models.BlockComment)]
+        if not cs:
+            return None
+        free = [t for t in cs if not t.claimed]
+        src = r.choice(free) if free and r.random() < 0.8 else r.choice(cs)
+        c = copy.deepcopy(src)
+        nodes = list(walker.walk(root))
+        if r.random() < 0.5:
+            ws = [(p + '.' + a, m, getattr(m, a)) for p, m in nodes if isinstance(m, mbase.RawTreeModel) and not isinstance(m, Repeated)
+                  for a, d, k in catalog(type(m)) if k == 'raw_list_comments']
+            if not ws:
+                return None
+            p, m, w = r.choice(ws)
+            first = next((x for x in w if hasattr(x, 'indent')), None)
+            c.indent = first.indent if first is not None else ('' if isinstance(m, models.File) else '    ')
+            o = Op('claim:give-to-list', f'{p}.append(<copy of comment {src.raw_text!r:.30}, claimed={src.claimed}>)', root, '$', lambda: [],
+                   lambda: w.append(c))
+        else:
+            sm = [(p, m) for p, m in nodes if isinstance(m, SurroundingCommentsMixin)]
+            if not sm:
+                return None
+            p, m = r.choice(sm)
+            side = r.choice(['raw_leading_comment', 'raw_trailing_comment'])
+            c.indent = m.indent if hasattr(m, 'indent') and isinstance(getattr(m, 'indent', None), str) else ''
+            o = Op('claim:give-to-model', f'{p}.{side} = <copy of comment {src.raw_text!r:.30}, claimed={src.claimed}>', root, '$', lambda: [],
+                   lambda: setattr(m, side, c))
+        o.given = c
+        return o
+
     def claim_op(self, root):
         r = self.r
         from autobean_refactor.models.internal.surrounding_comments import SurroundingCommentsMixin
